@@ -993,6 +993,12 @@ pub fn leechers(seed: u64) -> Plan {
     let mut names: Vec<String> = p.peers.iter().filter(|x| x.listed).map(|x| x.name.clone()).collect();
     names.rotate_left(1);
     p.tracker.steps.push((1, TrackerStep::Good { peers: names, malformed: 0, wrong_id_for: vec![] }));
+    // the stored piece cannot be read back now and then (upload path)
+    if r.chance(1, 8) {
+        for _ in 0..r.range(1, 3) {
+            p.disk_fail_reads.push(r.below(12));
+        }
+    }
     p.deadline_ms = r.range(35_000, 75_000);
     p.stop_on_done = false;
     p
@@ -1277,8 +1283,19 @@ pub fn bookkeeping(seed: u64) -> Plan {
             peer.script.push(step(when, act));
             t += *r.pick(&[0u64, 1, 5, 50, 300, 1500]);
         }
-        if r.chance(1, 4) {
-            peer.script.push(step(When::At(t + r.range(0, 5000)), if r.chance(1, 2) { Act::CloseFin } else { Act::CloseRst }));
+        match r.below(8) {
+            0 | 1 => peer.script.push(step(When::At(t + r.range(0, 5000)), if r.chance(1, 2) { Act::CloseFin } else { Act::CloseRst })),
+            // leaves in the middle of the walk, possibly while holding an assignment
+            2 => peer.script.push(step(When::At(r.range(50, t.max(51))), if r.chance(1, 2) { Act::CloseFin } else { Act::CloseRst })),
+            3 => peer.script.push(step(
+                When::AfterRx { kind: "Request".into(), count: r.range(1, 8) as u32, plus: r.range(0, 100) },
+                if r.chance(1, 2) { Act::CloseFin } else { Act::CloseRst },
+            )),
+            _ => {}
+        }
+        // and may be dialled again after a re-announce
+        if r.chance(1, 3) {
+            peer.max_accepts = 4;
         }
         p.peers.push(peer);
     }
@@ -1486,8 +1503,16 @@ pub fn keepalive(seed: u64) -> Plan {
                 _ => r.range(0, 119_000),
             }
         };
-        match r.below(6) {
-            0 => {} // nothing at all
+        match r.below(7) {
+            6 => {
+                // not even a handshake: total silence from the first byte on (keep-alives at most)
+                peer.hs = Hs::Absent;
+                peer.bitfield = BitfieldMode::Omit;
+                if r.chance(1, 2) {
+                    peer.keepalive = Some(r.range(1000, 119_000));
+                }
+            }
+            0 => {} // nothing after the handshake
             1 => peer.keepalive = Some(r.range(1000, 119_000)),
             2 => {
                 // chatty for the whole run
